@@ -34,7 +34,8 @@ SECOND = {"AuthnFailed": "StatusAuthnFailed", "InvalidAttrNameOrValue": "StatusI
           "RequestVersionTooLow": "StatusRequestVersionTooLow", "ResourceNotRecognized": "StatusResourceNotRecognized",
           "TooManyResponses": "StatusTooManyResponses", "UnknownAttrProfile": "StatusUnknownAttrProfile", "UnknownPrincipal": "StatusUnknownPrincipal",
           "UnsupportedBinding": "StatusUnsupportedBinding", "VersionMismatch": "StatusVersionMismatch", "Responder": "StatusResponder"}
-SECOND_EXTRA = ["<absent>", "urn:example:status:Nonstandard", S + "NotAStandardCode"]   # (an empty Value is schema-invalid, not a status)
+# (an empty Value is schema-invalid, not a status); the Success URI below a failure code, at the second or a deeper level, is still a failure
+SECOND_EXTRA = ["<absent>", "urn:example:status:Nonstandard", S + "NotAStandardCode", S + "Success", "AuthnFailed>Success", "RequestDenied>AuthnFailed>Success"]
 VERSIONS = ["1.0", "1.1", "2.0", "2.1", "3.0", "two", "", "<absent>", "2", "2.00", "02.0", " 2.0", "2.", "+2.0", "2e0", "2.0e0", "nan", "NaN", "inf",
             "2.0 ", "2,0", "２.０", "0x2", "2_0", "2.0.0"]
 
@@ -45,7 +46,7 @@ def gen_cases(tier, seed):
         for second in sorted(SECOND) + SECOND_EXTRA:
             for msg in (0, 1):
                 for assertion in ("none", "signed"):
-                    if tier == "quick" and msg and assertion == "signed" and second not in ("AuthnFailed", "<absent>", "urn:example:status:Nonstandard"):
+                    if tier == "quick" and msg and assertion == "signed" and second not in ("AuthnFailed", "<absent>", "urn:example:status:Nonstandard", S + "Success", "AuthnFailed>Success"):
                         continue
                     cid = "status-%s-%s-m%d-%s" % (top.split(":")[-1], second.split(":")[-1] or "empty", msg, assertion)
                     cases.append({"id": cid, "sig": ["status", top, second, msg, assertion], "kind": "status", "top": top, "second": second,
@@ -85,7 +86,9 @@ def run_case(case, ctx):
         p = d.prefix(st)
         inner = ""
         if case["second"] != "<absent>":
-            inner = '<%s:StatusCode Value="%s"/>' % (p, _urn(case["second"]))
+            chain = case["second"].split(">") if ">" in case["second"] and not case["second"].startswith("urn:") else [case["second"]]
+            for code in reversed(chain):
+                inner = '<%s:StatusCode Value="%s">%s</%s:StatusCode>' % (p, _urn(code), inner, p) if inner else '<%s:StatusCode Value="%s"/>' % (p, _urn(code))
         status = '<%s:Status><%s:StatusCode Value="%s">%s</%s:StatusCode>%s</%s:Status>' % (
             p, p, _urn(case["top"]), inner, p, ("<%s:StatusMessage>something went wrong</%s:StatusMessage>" % (p, p)) if case["msg"] else "", p)
         d = d.replace(st, status)
@@ -101,7 +104,8 @@ def run_case(case, ctx):
                 ident = fed.identity_of(resp)
                 viol.append({"key": "C06/non-success-response-yields-object", "what": desc + " identity=%r" % (ident.get("ava"),)})
             else:
-                want = SECOND.get(case["second"].replace(S, "") if case["second"].startswith(S) else case["second"])
+                sec = case["second"].split(">")[0] if ">" in case["second"] and not case["second"].startswith("urn:") else case["second"]
+                want = SECOND.get(sec.replace(S, "") if sec.startswith(S) else sec)
                 if case["second"].startswith(S) and case["second"][len(S):] not in SECOND:
                     want = None
                 want = want or "StatusError"
